@@ -1,4 +1,6 @@
 import Orca.Lemmas.SemBranch
+import Orca.Gen.ResolverOutline
+import Orca.Model.ResolverOutlineSpec
 import Orca.Lemmas.SpecialFlat
 import Orca.Lemmas.StackSpec
 import Orca.Lemmas.StackFull
@@ -154,6 +156,15 @@ theorem c20_flat_branch_probes_every_plan (f : Func) (hsp : f.hasSpecial = true)
     lower f = (out, f.added + (nlf - f.nlocals)) :=
   lower_eq_specF f hsp hp out nlf hs
 
+/-- **A semantic-after probe on a branch reaches the output unless the branch can only go to the function's label** (every plan
+    without block alternates): for each branch with a probe at nesting depth `d`, if it is a `br_if` (the inline copy) or one of its
+    targets is smaller than `d` (a construct, not the function), every token of the probe is in the encoded function. -/
+theorem c20_branch_probe_kept_unless_function_label (f : Func) (hsp : f.hasSpecial = true) (hp : ∀ x ∈ f.body, PlainF x)
+    (hna : ∀ x ∈ f.body, x.blockAlt = none) (out : List Tok) (nlf : Nat)
+    (hs : specRunF (f.body.length - 1) (entryToks f) f.exit 0 [{}] none f.nlocals f.body = some (out, nlf)) :
+    KeptAll 0 f.body (lower f).1 :=
+  lower_keeps_all_F f hsp hp hna out nlf hs
+
 /-! non-vacuity (decided): two flagged branches leaving the same block (locals 5 and 6): the guarded bodies are chained `if … else
     … end end` behind the block's `end`; a `br 1` out of the function from inside a block parks at the function's own frame and its body
     is not emitted (F15) -/
@@ -171,3 +182,11 @@ example :
   decide
 
 end Orca.Lower
+
+/-- **The tie to the source (regenerated on every run).** The skeletons of `plan_resolution_semantic_after`, `create_bool_flag` and
+    `save_flagged_body_to_resolve` are what the third stage of `planSpecial` (`flag`, `park`, `addFlag`) was transcribed from. -/
+theorem c20_semantic_after_code_reviewed :
+    Orca.Gen.Outline.plan_resolution_semantic_after = Orca.Lower.Outline.plan_resolution_semantic_after
+    ∧ Orca.Gen.Outline.create_bool_flag = Orca.Lower.Outline.create_bool_flag
+    ∧ Orca.Gen.Outline.save_flagged_body_to_resolve = Orca.Lower.Outline.save_flagged_body_to_resolve :=
+  ⟨rfl, rfl, rfl⟩
